@@ -473,10 +473,34 @@ def finish(ctx: Ctx, status: BuildStatus, report: Report, search=None, extra=Non
         # a broken proof / translator / correspondence is not by itself a violation: search for a failing input
         found = None
         if search is not None and ctx.lean is not None:
+            # the search is bounded in time (VERIF_SEARCH_SECONDS, default 420 s quick / 2400 s thorough): when nothing fails
+            # the specification, the verdict is `no-failing-input-found` either way, and a run must end in minutes
+            budget = int(os.environ.get("VERIF_SEARCH_SECONDS", "2400" if ctx.tier == "thorough" else "420"))
+
+            class _SearchTimeUp(BaseException):  # not an Exception: the searches catch Exception around implementation calls
+                pass
+
+            def _alarm(_signum, _frame):
+                raise _SearchTimeUp()
+
+            old_handler = None
+            try:
+                import signal  # pylint: disable=import-outside-toplevel
+
+                old_handler = signal.signal(signal.SIGALRM, _alarm)
+                signal.alarm(max(1, budget))
+            except (ValueError, AttributeError):  # not the main thread / no SIGALRM: run unbounded
+                old_handler = None
             try:
                 found = search()
+            except _SearchTimeUp:
+                report.notes.append(f"directed search stopped at its time budget ({budget} s) without a failing input")
             except Exception as exc:  # pylint: disable=broad-except
                 report.notes.append(f"directed search crashed: {type(exc).__name__}: {exc}")
+            finally:
+                if old_handler is not None:
+                    signal.alarm(0)
+                    signal.signal(signal.SIGALRM, old_handler)
         if found is not None and not any(
             k.get("clause") == found["clause"] and k.get("trigger") == found["trigger"] for k in known
         ):
